@@ -141,8 +141,30 @@ func oracle(sp *Spec, o *Obs, min int) []string {
 	if !o.Usable && (o.Outcome == "delivered" || o.Outcome == "failed") {
 		bad = append(bad, fmt.Sprintf("after the registration (%s) the runtime's plugin-sync lock was not released: BlockPluginSync() still blocked after %d s, no further plugin can register", o.Outcome, o.UsableBoundS))
 	}
+	// one request per registration: nothing is sent after the message not flagged More, whatever the
+	// plugin answers to it; the handler is invoked at most once and sees exactly the supplied state
+	for i, m := range o.Msgs {
+		if !m.More && i < len(o.Msgs)-1 {
+			bad = append(bad, fmt.Sprintf("message %d of %d was not flagged More (the request was complete) and %d more message(s) were sent after it: the state was sent again", i+1, len(o.Msgs), len(o.Msgs)-1-i))
+			break
+		}
+	}
+	if sp.Plugin == "stub" {
+		if len(o.Invocations) > 1 {
+			bad = append(bad, fmt.Sprintf("the Synchronize handler was invoked %d times for one registration (its first answer: %s)", len(o.Invocations), handlerAnswer(sp)))
+		}
+		for i, inv := range o.Invocations {
+			if !isSeq(expandRuns(inv.PodRuns), np) || !isSeq(expandRuns(inv.CtrRuns), nc) {
+				bad = append(bad, fmt.Sprintf("invocation %d of the Synchronize handler was handed %d pods and %d containers, the runtime supplied %d and %d",
+					i+1, len(expandRuns(inv.PodRuns)), len(expandRuns(inv.CtrRuns)), np, nc))
+			}
+		}
+	}
 	switch o.Outcome {
 	case "delivered":
+		if sp.Script == "errfinal" {
+			bad = append(bad, "the registration completed (and the plugin is treated as synchronised) although the plugin failed its one synchronisation with "+handlerAnswer(sp))
+		}
 		var ps, cs []int
 		for i, m := range o.Msgs {
 			ps = append(ps, expandRuns(m.PodRuns)...)
@@ -187,6 +209,40 @@ func oracle(sp *Spec, o *Obs, min int) []string {
 		bad = append(bad, "unknown outcome "+o.Outcome)
 	}
 	return bad
+}
+
+func handlerAnswer(sp *Spec) string {
+	if sp.Script != "errfinal" && sp.Script != "err" {
+		return "success"
+	}
+	if sp.Code == "" {
+		return "a plain error"
+	}
+	return "a gRPC status " + sp.Code
+}
+
+// grpcCode is the numeric gRPC code of Spec.Code (2 = Unknown: what a plain error becomes on the wire).
+func grpcCode(sp *Spec) int {
+	switch sp.Code {
+	case "resource_exhausted":
+		return 8
+	case "internal":
+		return 13
+	case "unavailable":
+		return 14
+	}
+	return 2
+}
+
+func coqCalls1(l []HCall) string {
+	if len(l) == 0 {
+		return "[]"
+	}
+	var parts []string
+	for _, h := range l {
+		parts = append(parts, fmt.Sprintf("(%s, %s)", zpairs(h.PodRuns), zpairs(h.CtrRuns)))
+	}
+	return "[" + strings.Join(parts, "; ") + "]"
 }
 
 func firstLine(s string) string {
@@ -286,9 +342,9 @@ func coqCase(sp *Spec, o *Obs) string {
 		out = "OStalled"
 	}
 	return fmt.Sprintf("{| sc_wp := %s; sc_wc := %s; sc_hdr := %d%%Z; sc_more := %d%%Z; sc_limit := %d%%Z; sc_stub := %s; sc_script := %s; sc_nupd := %d%%Z; "+
-		"sc_msgs := %s; sc_outcome := %s; sc_calls := %d%%Z; sc_hpods := %s; sc_hctrs := %s; sc_upd := %s; sc_active := %s; sc_usable := %s |}",
+		"sc_msgs := %s; sc_outcome := %s; sc_errcode := %d%%Z; sc_once := %s; sc_hcalls := %s; sc_upd := %s; sc_active := %s; sc_usable := %s |}",
 		zweights(o.WP), zweights(o.WC), o.Hdr, o.MoreCost, o.Limit, coqBool(sp.Plugin == "stub"), coqScript(sp), sp.NUpd,
-		ms, out, o.HandlerCalls, zpairs(o.HandlerPodRuns), zpairs(o.HandlerCtrRuns), zlist(o.GotUpd), coqBool(o.Active), coqBool(o.Usable))
+		ms, out, grpcCode(sp), coqBool(sp.Once), coqCalls1(o.Invocations), zlist(o.GotUpd), coqBool(o.Active), coqBool(o.Usable))
 }
 
 // ---------------------------------------------------------------- workers
@@ -572,8 +628,17 @@ func decorate(r *rand.Rand, sp *Spec, misbehave bool) *Spec {
 		sp.At = 1 + r.Intn(4)
 	}
 	sp.NUpd = r.Intn(4)
+	if sp.Script == "err" || sp.Script == "errfinal" {
+		// the kind of the error and whether only the first final message is failed: derived from the
+		// case itself (no further draws, so that the population of states stays what it was)
+		k := sp.At + sp.NUpd + len(sp.Pods) + 2*len(sp.Ctrs)
+		sp.Code = errCodes[k%len(errCodes)]
+		sp.Once = sp.Script == "errfinal" && (k/len(errCodes))%2 == 0
+	}
 	return sp
 }
+
+var errCodes = []string{"resource_exhausted", "", "unavailable", "internal", "resource_exhausted"}
 
 func padList(r *rand.Rand, n int, f func() int) []int {
 	l := make([]int, n)
@@ -788,6 +853,7 @@ func driveSync(c *hx.Ctx) error {
 	var slowest string
 	totalMsgs, split, failed := 0, 0, 0
 	var resyncShard *hx.Shard
+	finalAboveMin := map[string]int{} // error kind -> cases in which the failed final message carried more than min objects
 	var rtot resyncTotals
 	for i, t := range all {
 		sp, rs := t.sp, res[i]
@@ -801,7 +867,7 @@ func driveSync(c *hx.Ctx) error {
 		}
 		o := rs.obs
 		raw := map[string]interface{}{"stream": t.stream, "spec": compact(sp), "outcome": o.Outcome, "msgs": o.Msgs, "sync_err": o.SyncErr,
-			"handler_calls": o.HandlerCalls, "got_upd": o.GotUpd, "active": o.Active, "usable": o.Usable, "wp_rle": toRLE(o.WP), "wc_rle": toRLE(o.WC)}
+			"handler_calls": o.HandlerCalls, "handler_invocations": o.Invocations, "got_upd": o.GotUpd, "active": o.Active, "usable": o.Usable, "wp_rle": toRLE(o.WP), "wc_rle": toRLE(o.WC)}
 		if sp.Signature != nil {
 			raw["signature"] = sp.Signature
 		}
@@ -817,6 +883,21 @@ func driveSync(c *hx.Ctx) error {
 		c.Count("outcome."+o.Outcome, 1)
 		c.Count("plugin."+sp.Plugin, 1)
 		c.Count("script."+sp.Script, 1)
+		if sp.Script == "err" || sp.Script == "errfinal" {
+			code := sp.Code
+			if code == "" {
+				code = "plain"
+			}
+			split := "unsplit"
+			if len(o.Msgs) >= 2 {
+				split = "split"
+			}
+			c.Count(fmt.Sprintf("plugin_error.%s.%s.%s.%s", sp.Script, code, sp.Plugin, split), 1)
+			if sp.Script == "errfinal" && len(o.Msgs) > 0 && !o.Msgs[len(o.Msgs)-1].More && o.Msgs[len(o.Msgs)-1].NP+o.Msgs[len(o.Msgs)-1].NC > min {
+				c.Count("plugin_error.errfinal."+code+".final_message_above_min_chunk", 1)
+				finalAboveMin[code]++
+			}
+		}
 		if o.RegReplyLost {
 			c.Count("plugin_end.register_reply_lost_after_failed_sync", 1)
 		}
@@ -860,6 +941,13 @@ func driveSync(c *hx.Ctx) error {
 	}
 	if failed == 0 && os.Getenv("H_SYNC_ONLY") == "" && !misbehaved {
 		c.HarnessError("no generated state failed to synchronise")
+	}
+	if os.Getenv("H_SYNC_ONLY") == "" && !misbehaved {
+		for _, code := range []string{"resource_exhausted", "unavailable", "internal", "plain"} {
+			if finalAboveMin[code] == 0 {
+				c.HarnessError("no case in which the plugin failed a final message of more than %d objects with error kind %s", min, code)
+			}
+		}
 	}
 	if rtot.staleThenDelivered == 0 && !misbehaved && (os.Getenv("H_SYNC_ONLY") == "" || os.Getenv("H_SYNC_ONLY") == "resync") {
 		c.HarnessError("resync: no case in which a registration that failed after accepted chunks was followed by a completed one (%d cases)", rtot.cases)
